@@ -10,10 +10,25 @@ import (
 )
 
 // verifDoc2 builds an OpenAPI 2 document inside the convertible fragment.
-func verifDoc2() (*openapi2.T, map[string]bool) {
+//
+// focus 0 leaves every feature to the explorer (the full product); focus 1 explores the request side
+// (parameters, bodies, forms) with the response/meta side fixed, focus 2 the response/meta side
+// (origin, produces, responses, security) with the request side fixed.
+func verifDoc2(focus int) (*openapi2.T, map[string]bool) {
 	feat := map[string]bool{}
-	pick := func(name string) bool {
-		b := verifChoose(name, 2) == 1
+	reqSide := map[string]bool{"query": true, "sharedParam": true, "bodyKind": true}
+	choose := func(name string, n int, fixed int) int {
+		if focus == 0 || (focus == 1) == reqSide[name] {
+			return verifChoose(name, n)
+		}
+		return fixed
+	}
+	pick := func(name string, fixed bool) bool {
+		f := 0
+		if fixed {
+			f = 1
+		}
+		b := choose(name, 2, f) == 1
 		feat[name] = b
 		return b
 	}
@@ -21,7 +36,7 @@ func verifDoc2() (*openapi2.T, map[string]bool) {
 	maxf := verifNondetFloat64("maximum")
 	verifAssume(maxf == maxf)
 	// where the API lives: scheme list x host, as five combinations
-	origin := verifChoose("origin", 5)
+	origin := choose("origin", 5, 0)
 	schemes := [][]string{{"https"}, {"http"}, {"https", "http"}, {"https"}, {"https"}}[origin]
 	host := []string{"h.example", "h.example", "h.example", "h.example:8443", ""}[origin]
 	doc := &openapi2.T{Swagger: "2.0", Info: openapi3.Info{Title: "t", Version: "1"}, Host: host, BasePath: "/v1", Schemes: schemes,
@@ -34,7 +49,7 @@ func verifDoc2() (*openapi2.T, map[string]bool) {
 		"200": {Description: "ok", Schema: &openapi2.SchemaRef{Ref: "#/definitions/Item"}},
 	}}
 	produces := "application/json"
-	switch verifChoose("produces", 3) {
+	switch choose("produces", 3, 0) {
 	case 1:
 		op.Produces = []string{"text/plain"}
 		produces = "text/plain"
@@ -44,16 +59,21 @@ func verifDoc2() (*openapi2.T, map[string]bool) {
 	}
 	feat["produces:"+produces] = true
 	op.Parameters = append(op.Parameters, &openapi2.Parameter{Name: "id", In: "path", Required: true, Type: &openapi3.Types{"integer"}, Maximum: &maxf})
-	if pick("query") {
+	if pick("query", true) {
 		op.Parameters = append(op.Parameters, &openapi2.Parameter{Name: "q", In: "query", Required: verifNondetBool("qRequired"), Type: &openapi3.Types{"string"}, MinLength: minLen})
 	}
-	if pick("sharedParam") {
+	if pick("sharedParam", false) {
 		doc.Parameters = map[string]*openapi2.Parameter{"Limit": {Name: "limit", In: "query", Type: &openapi3.Types{"integer"}, Maximum: &maxf}}
 		op.Parameters = append(op.Parameters, &openapi2.Parameter{Ref: "#/parameters/Limit"})
 	}
 	post := &openapi2.Operation{OperationID: "postItem", Responses: map[string]*openapi2.Response{"201": {Description: "created"}}}
 	post.Parameters = append(post.Parameters, &openapi2.Parameter{Name: "id", In: "path", Required: true, Type: &openapi3.Types{"integer"}})
-	switch verifChoose("bodyKind", 4) {
+	if pick("fileResponse", false) {
+		// a download: the response body is a file, in a media type the operation states
+		post.Produces = []string{"application/octet-stream"}
+		post.Responses["201"].Schema = &openapi2.SchemaRef{Value: &openapi2.Schema{Type: &openapi3.Types{"file"}}}
+	}
+	switch choose("bodyKind", 4, 1) {
 	case 3:
 		// a shared (document-level) form parameter used by reference
 		feat["sharedForm"] = true
@@ -73,11 +93,11 @@ func verifDoc2() (*openapi2.T, map[string]bool) {
 		post.Parameters = append(post.Parameters, &openapi2.Parameter{Name: "fa", In: "formData", Required: verifNondetBool("faRequired"), Type: &openapi3.Types{"string"}, MinLength: minLen})
 		post.Parameters = append(post.Parameters, &openapi2.Parameter{Name: "fb", In: "formData", Required: verifNondetBool("fbRequired"), Type: &openapi3.Types{"integer"}, Maximum: &maxf})
 	}
-	if pick("sharedResponse") {
+	if pick("sharedResponse", false) {
 		doc.Responses = map[string]*openapi2.Response{"NotFound": {Description: "nf", Headers: map[string]*openapi2.Header{"X-R": {Parameter: openapi2.Parameter{Type: &openapi3.Types{"integer"}, Maximum: &maxf}}}}}
 		op.Responses["404"] = &openapi2.Response{Ref: "#/responses/NotFound"}
 	}
-	if pick("security") {
+	if pick("security", false) {
 		doc.SecurityDefinitions = map[string]*openapi2.SecurityScheme{
 			"key":   {Type: "apiKey", In: "header", Name: "X-Key"},
 			"basic": {Type: "basic"},
@@ -142,9 +162,17 @@ func verifNoV3Refs(doc *openapi2.T) bool {
 	return ok
 }
 
-//verif:harness id=C17 tier=quick,thorough witness=end bounds="whole documents in the convertible fragment: one path with GET+POST, path/query/shared parameters, one body, two formData parameters or a shared formData parameter by reference (required flags, minLength, maximum symbolic), shared response with header, definitions by reference, apiKey/basic/oauth2 (4 flows), document-level security with the operation inheriting / opting out with an empty list / stating two alternatives, origin in 5 combinations (https / http / both on h.example, https on h.example:8443, no host = base path only); ToV3 result passes the real Validate and has the same paths, methods, operation ids, parameters and constraints; FromV3 of it describes the same API with OpenAPI 2 references only"
-func verifH_C17_document() {
-	doc2, feat := verifDoc2()
+//verif:harness id=C17 tier=quick,thorough witness=end bounds="REQUEST SIDE of: whole documents in the convertible fragment: one path with GET+POST, path/query/shared parameters, one body, two formData parameters or a shared formData parameter by reference (required flags, minLength, maximum symbolic), shared response with header, a file response with its own produces, definitions by reference, apiKey/basic/oauth2 (4 flows), document-level security with the operation inheriting / opting out with an empty list / stating two alternatives, origin in 5 combinations (https / http / both on h.example, https on h.example:8443, no host = base path only); ToV3 result passes the real Validate and has the same paths, methods, operation ids, parameters and constraints; FromV3 of it describes the same API with OpenAPI 2 references only -- here the parameters, body and forms vary and the response/meta side is fixed (https://h.example, JSON, no shared response, no security)"
+func verifH_C17_document_requests() { verifDocument(1) }
+
+//verif:harness id=C17 tier=quick,thorough witness=end bounds="RESPONSE AND META SIDE of the same documents: origin, produces, shared and file responses, security vary and the request side is fixed (query parameter, JSON body)"
+func verifH_C17_document_responses() { verifDocument(2) }
+
+//verif:harness id=C17 tier=thorough witness=end maxpaths=60000 bounds="the full product of both sides"
+func verifH_C17_document() { verifDocument(0) }
+
+func verifDocument(focus int) {
+	doc2, feat := verifDoc2(focus)
 	doc3, err := ToV3(doc2)
 	verifAssert(err == nil && doc3 != nil, "C17 document: a document in the convertible fragment converts")
 	if err != nil || doc3 == nil {
@@ -213,6 +241,14 @@ func verifH_C17_document() {
 	verifKnown("C17-produces-ignored", produces != "application/json")
 	verifAssert(r200 != nil && r200.Value != nil && *r200.Value.Description == "ok" && r200.Value.Content[produces] != nil && r200.Value.Content[produces].Schema.Ref == "#/components/schemas/Item", "C17 document: response keeps description and schema reference under the media type the operation produces")
 	verifKnown("C17-produces-ignored", false)
+	if feat["fileResponse"] {
+		r201 := pi.Post.Responses.Value("201")
+		mt := (*openapi3.MediaType)(nil)
+		if r201 != nil && r201.Value != nil {
+			mt = r201.Value.Content["application/octet-stream"]
+		}
+		verifAssert(mt != nil && mt.Schema != nil && mt.Schema.Value != nil && mt.Schema.Value.Type.Is("string") && mt.Schema.Value.Format == "binary" && len(r201.Value.Content) == 1, "C17 document: a file response becomes binary content under the media type the operation produces")
+	}
 	item := doc3.Components.Schemas["Item"]
 	verifAssert(item != nil && item.Value != nil && item.Value.Properties["name"].Value.MinLength == doc2.Definitions["Item"].Value.Properties["name"].Value.MinLength, "C17 document: definitions become component schemas with the same constraints")
 	serversOK := len(doc3.Servers) == len(doc2.Schemes)
@@ -288,6 +324,14 @@ func verifH_C17_document() {
 		return
 	}
 	verifAssert(verifNoV3Refs(back), "C17 back: every reference points at an OpenAPI 2 location")
+	if feat["fileResponse"] {
+		b201 := bpi.Post.Responses["201"]
+		verifAssert(b201 != nil && b201.Description == "created" && b201.Schema != nil && b201.Schema.Value != nil && b201.Schema.Value.Type.Is("file"), "C17 back: a file response is a file response again")
+		verifAssert(len(bpi.Post.Produces) == 1 && bpi.Post.Produces[0] == "application/octet-stream", "C17 back: the operation still says which media type it produces")
+	}
+	if feat["produces:text/plain"] && len(src.Get.Produces) == 1 {
+		verifAssert(len(bpi.Get.Produces) == 1 && bpi.Get.Produces[0] == "text/plain", "C17 back: an operation's own produces list comes back")
+	}
 	bid := verifFindParam(bpi.Get.Parameters, "path", "id")
 	verifAssert(bid != nil && bid.Required && bid.Maximum != nil && *bid.Maximum == *src.Get.Parameters[0].Maximum, "C17 back: path parameter keeps requiredness and maximum")
 	if feat["query"] {
